@@ -212,9 +212,6 @@ func (w *world) planHO(op Op, fresh func() int, newID func() int) (p planned) {
 		if !a.allRows() {
 			return skip("ho: the argument is not a list of sub-lists")
 		}
-		if f.name == "subseq" && a.hasNil() {
-			return skip("avoided:subseq-of-empty-list")
-		}
 		r1s, n = a, len(a)
 		var ks []string
 		for i, r := range a {
